@@ -341,11 +341,13 @@ class CircuitCompositeOperation(ICircuitCompositeOperation):
         Applies modifiers such as repetition and state-control.
         :return: Modified self.
         """
+        # Apply modifiers to nested operations first, such that repetitions of self are chained based on
+        # the final (unrolled) duration of its nested operations
+        for node in self._circuit_graph.get_node_iterator():
+            node.operation.apply_modifiers_to_self()
         # Apply repetition modifier to self (update strategy)
         self.repeat(times=self.nr_of_repetitions)
         self.repetition_strategy = FixedRepetitionStrategy(repetitions=1)
-        for node in self._circuit_graph.get_node_iterator():
-            node.operation.apply_modifiers_to_self()
 
         return self
 
